@@ -139,6 +139,10 @@ def run_cases(cases, res):
             res.fail(c, 'C06: n_int / dtype inconsistent with the inferred sizes', expected=nw - nf - sign, got=(obs['n_int'], obs['dtype'])); continue
         if want is not None and (s, nw, nf) != want:
             res.fail(c, 'C06: inferred format is not the minimal / arithmetically determined one', expected=want, got=(s, nw, nf)); continue
+        if g == 'n_frac' and not fits and c.get('slack', 0) < 0 and kw['n_frac'] >= 0:
+            trunc_codes = [math.trunc(v * Fraction(2) ** kw['n_frac']) for v in vals]
+            if obs['codes'] != trunc_codes or obs['status'][0] or obs['status'][1] or nf != kw['n_frac']:
+                res.fail(c, 'C06: only n_frac given with fewer fraction bits than the values need: the inferred word does not hold every truncated code (overflow / underflow raised, or a code changed)', expected=(trunc_codes, kw['n_frac']), got=(obs['codes'], obs['status'], (s, nw, nf))); continue
         if fits and (exact_vals != vals or obs['status'] != (False, False, False)):
             res.fail(c, 'C06: the inferred format does not hold the supplied values exactly without flags', expected=c['vals'], got=([str(v) for v in exact_vals], obs['status'])); continue
         kind, rd = outcome(out)
@@ -252,6 +256,13 @@ def shard(shard, nshards, rng, tier, extra):
     for _ in range((12000 if tier == 'quick' else 100000) // nshards):
         c = gen(rng)
         if c['given'] in ('n_word', 'n_frac', 'n_int+n_frac', 'n_int+n_word'): c['slack'] = rng.choice([0, 0, 1, 3, -1 if c['given'] == 'n_word' else 2] + ([-rng.randint(2, 16), -rng.randint(2, 6)] if c['given'] == 'n_word' else []))
+        if c['given'] == 'n_frac' and rng.random() < 0.3 and not c.get('objarr') and c['carrier'] in ('float', 'int'):
+            # only n_frac given and FEWER fraction bits than the values need (default rounding: truncation): the word holds every truncated code -
+            # arrays whose extremes truncate onto the same power of two included (-1.25 and 1.0 at n_frac = 0)
+            c['slack'] = -rng.randint(1, 6)
+            if rng.random() < 0.5:
+                j_ = rng.randint(0, 8); f_ = rng.randint(1, 6); c['vals'] = [str(-(Fraction(2 ** j_) + Fraction(rng.randint(1, 2 ** f_ - 1), 2 ** f_))), str(Fraction(2 ** j_))] + ([str(Fraction(rng.randint(-2 ** j_, 2 ** j_)))] if rng.random() < 0.5 else [])
+                c['shape'] = 'array'; c['signed'] = rng.choice([True, None]); c['carrier'] = 'float'; c['slack'] = -f_
         cases.append(c)
         if rng.random() < 0.06:
             # only n_word given and many bits short of the exact fraction, the extreme just beyond a power of two (the integer part is decided by the exact value, not by a truncated one)
